@@ -58,8 +58,12 @@ def example_sources(rng, k):
         return ['p%d = t(%d); q%d = p%d + 1' % (k, k, k, k)], None, None
     if r < 0.74:
         return ['# a comment', 'c%d = t(%d)' % (k, k)], None, None
-    if r < 0.775:
+    if r < 0.76:
         return ["boom(%d, ValueError, 'bad %d')" % (k, k)], None, None                      # expected traceback
+    if r < 0.775:
+        # exceptions whose rendering has several lines (source location, caret): a syntax error found while the example RUNS
+        bad = rng.choice(["eval('1 +')", "exec('def f(:\\n    pass')", "compile('x = = 1', 'f.py', 'exec')", "exec('if 1:\\n  a = 1\\n    b = 2')"])
+        return ["t(%d) and %s" % (k, bad)], rng.choice([None, None, 'IGNORE_EXCEPTION_DETAIL']), None
     if r < 0.80:
         # writes to stdout, then raises: the standard module ignores what was printed before an expected exception
         # (the want is the traceback alone), and the text must not turn up in a later example's output either
